@@ -173,10 +173,11 @@ def run_case(case):
     dump = bool(case.get("same_seed"))
     R = pipeline.leg_run(files, entry, env, 0, dump=dump)
     CE = pipeline.leg_compile_execute(files, entry, env, 1, dump=dump)
-    procs = R + CE
+    aux = pipeline.take_aux()
+    procs = R + CE + aux
     rules = []
     for p in procs:
-        rules.append(env["plans"][0]["rules"] + env["plans"][1]["rules"] + env["plans"][2]["rules"])
+        rules.append(env["plans"][0]["rules"] + env["plans"][1]["rules"] + env["plans"][2]["rules"] + ((env.get("crash") or {}).get("rules") or []))
     st = core.stats_of(procs, rules)
     for p in procs:
         for e in p["events"]:
@@ -202,6 +203,9 @@ def run_case(case):
         probes["stale_artefacts_present"] = 1
     if exe and any(e["call"] == "open" and e["path"].endswith(".mmm") and e["path"] != exe[0]["args"][1] for e in exe[0]["events"]):
         probes["module_loaded_lazily_from_disk"] = 1
+    for a in aux:
+        if a.get("crashed"):
+            probes["crashed_and_restarted_" + a["args"][0]] = 1
     st["probes"] = probes
 
     def fail(cls, msg):
@@ -255,6 +259,7 @@ def run_case(case):
             for alt in ("a5", "3c", "e7", "19"):
                 env2 = copy.deepcopy(env)
                 env2["plans"][0] = {"seed": alt * 16, "rules": []}
+                env2["crash"] = None
                 r2 = pipeline.leg_run(files, entry, env2, 0)[0]
                 if pipeline.norm_out(r2["out"]) != ro:
                     unordered = True
